@@ -140,7 +140,8 @@ def st_rect_case(draw):
     target = draw(st.sampled_from([1, -1])) * draw(st.sampled_from(gr.MARGIN_LEVELS)) * scale
     t = gr.solve_shift(f, target, -1e4 * scale, 1e4 * scale)
     r2 = {"lo": (l2 + t * v).tolist(), "hi": (u2 + t * v).tolist()}
-    return {"cone": spec, "r1": r1, "r2": r2, "slack": s}
+    t = draw(gr.st_offset(m))
+    return {"cone": spec, "r1": gr.shift_region(r1, t), "r2": gr.shift_region(r2, t), "slack": s}
 
 
 @st.composite
@@ -165,7 +166,8 @@ def st_rect_exact(draw):
                 r2 = {"lo": (np.array(r2["lo"]) + d).tolist(), "hi": (np.array(r2["hi"]) + d).tolist()}
         except np.linalg.LinAlgError:
             pass
-    return {"cone": spec, "r1": r1, "r2": r2, "slack": s, "exact": True}
+    t = draw(gr.st_offset(m, exact=True))
+    return {"cone": spec, "r1": gr.shift_region(r1, t), "r2": gr.shift_region(r2, t), "slack": s, "exact": True}
 
 
 @st.composite
@@ -191,7 +193,8 @@ def st_ell_case(draw):
     target = draw(st.sampled_from([1, -1])) * draw(st.sampled_from(gr.MARGIN_LEVELS)) * scale
     t = gr.solve_shift(f, target, -1e4 * scale, 1e4 * scale)
     e2 = dict(e2, c=(c2 + t * v).tolist())
-    return {"cone": spec, "r1": e1, "r2": e2, "slack": s}
+    t = draw(gr.st_offset(m))
+    return {"cone": spec, "r1": gr.shift_region(e1, t), "r2": gr.shift_region(e2, t), "slack": s}
 
 
 COMPONENTS = [
